@@ -17,7 +17,7 @@ for l in open(os.path.join(ROOT, "properties.jsonl")):
     d = json.loads(l)
     TITLES[d["id"]] = d["title"]
 
-ALSO = {"C01": ["C01Basis"], "C02": ["C02Energy", "C02Deph", "C02Basis"], "C03": ["C03Enum"], "C07": ["C07Limits", "C07Basis", "C07Covariant"], "C08": ["C08Apply", "C08Dephasing"], "C09": ["C09Analytic"], "C13": ["C13Inverse", "C13Linear"], "C16": ["C16Dyn", "C16Herm"], "C04": ["C04Labels", "C04Tensor"], "C17": ["C17Bound", "C17Positive", "C17Linear"], "C12": ["C12Weyl", "C12Average", "C12Pref", "C12Design", "C12DesignT8", "C12Widths", "C12Multilinear"], "C11": ["C11Spectrum"], "C05": ["C05Composite", "C05HandSwitch"], "C10": ["C10Complex"], "C14": ["C14Units"], "C20": ["C20Regions"]}
+ALSO = {"C01": ["C01Basis"], "C02": ["C02Energy", "C02Deph", "C02Basis"], "C03": ["C03Enum"], "C07": ["C07Limits", "C07Basis", "C07Covariant"], "C08": ["C08Apply", "C08Dephasing", "C08Basis"], "C09": ["C09Analytic"], "C13": ["C13Inverse", "C13Linear"], "C16": ["C16Dyn", "C16Herm"], "C04": ["C04Labels", "C04Tensor"], "C17": ["C17Bound", "C17Positive", "C17Linear"], "C12": ["C12Weyl", "C12Average", "C12Pref", "C12Design", "C12DesignT8", "C12Widths", "C12Multilinear"], "C11": ["C11Spectrum"], "C05": ["C05Composite", "C05HandSwitch"], "C10": ["C10Complex"], "C14": ["C14Units"], "C20": ["C20Regions"]}
 SHARED = {"C02": ["Lemmas/Taylor", "Lemmas/TruncBound"], "C07": ["Lemmas/Taylor"], "C08": ["Lemmas/Taylor", "Lemmas/TruncBound"],
           "C17": ["Lemmas/Taylor"], "C16": [], "C18": ["Props/C04"], "C12": ["Props/C19"], "C06": []}
 
